@@ -928,6 +928,28 @@ def picture_env(prog: Program) -> RuleResult:
     return res
 
 
+def _interner_names(prog: Program, fn: ast.AST) -> Set[str]:
+    """Names under which the colour interner of render() is known inside `fn`: `get_color` itself (the nested
+    function of render) or the parameter of a draw function that receives it at render's call sites."""
+    key = ("interner_names", id(fn))
+    if key in prog.memo:
+        return prog.memo[key]
+    render = prog.func(TIKZ, "render")
+    inner = {n.name for n in walk_no_nested(render) if isinstance(n, FuncNode)}
+    names: Set[str] = set(inner) if fn is render else set()
+    params = func_params(fn) if isinstance(fn, FuncNode) else []
+    for call in calls_in(render):
+        if isinstance(call.func, ast.Name) and isinstance(fn, FuncNode) and call.func.id == fn.name:
+            for idx, a in enumerate(call.args):
+                if isinstance(a, ast.Name) and a.id in inner and idx < len(params):
+                    names.add(params[idx])
+            for kw in call.keywords:
+                if isinstance(kw.value, ast.Name) and kw.value.id in inner and kw.arg:
+                    names.add(kw.arg)
+    prog.memo[key] = names
+    return names
+
+
 def color_intern(prog: Program) -> RuleResult:
     res = RuleResult(
         "COLOR-INTERN",
@@ -944,7 +966,7 @@ def color_intern(prog: Program) -> RuleResult:
                 n += 1
                 parent = mod.parent(node)
                 construct = f"{TIKZ}:{qual}/color-read#{n}"
-                if isinstance(parent, ast.Call) and dotted(parent.func) == "get_color" and parent.args == [node]:
+                if isinstance(parent, ast.Call) and isinstance(parent.func, ast.Name) and parent.func.id in _interner_names(prog, fn) and parent.args == [node]:
                     res.ok(construct, short(parent))
                 else:
                     res.fail(
